@@ -240,3 +240,15 @@ func VCommandType(cmd []byte) int32 {
 	}
 	return int32(c.GetType())
 }
+
+// VClientInstall makes new metadata "reach the node": it does what the
+// client's polling loop does when a newer snapshot arrives.
+func VClientInstall(c *Client, d *Data) {
+	c.mu.Lock()
+	c.cacheData = d
+	c.updateAuthCache()
+	c.mu.Unlock()
+}
+
+// VSetBcryptCost lowers the bcrypt cost used when the client hashes passwords.
+func VSetBcryptCost(n int) { bcryptCost = n }
